@@ -36,6 +36,7 @@ func runC18(p *Program, e *Engine, r *Result, tier string) {
 	if kf == nil {
 		return
 	}
+	computeRemoval(a, kf)
 	ro := a.Ro
 	// the seen table: a string-keyed set that is not the user table, written by a function taking (string, bool)
 	var seenT *types.Var
@@ -94,7 +95,13 @@ func runC18(p *Program, e *Engine, r *Result, tier string) {
 		n++
 		createFn = call.Parent()
 		gated, bad := v.Cond.everyConj(func(c Conj) bool {
-			return c.has(func(l Lit) bool { return l.A.Kind == AkPred && l.Neg && l.A.Callee != nil && readsTable(l.A.Callee, seenT) })
+			return c.has(func(l Lit) bool {
+				if l.A.Kind == AkPred && l.Neg && l.A.Callee != nil && readsTable(l.A.Callee, seenT) {
+					return true
+				}
+				// the predicate inlined: !ok(seen[name])
+				return l.A.Kind == AkOk && l.Neg && lookupInTable(l.A, []*types.Var{seenT})
+			})
 		})
 		wit := "sent under !seenBefore"
 		if !gated {
@@ -165,7 +172,7 @@ func runC18(p *Program, e *Engine, r *Result, tier string) {
 	for _, v := range w.Visits {
 		if args, ok := isBuiltinCall(v.Instr, "delete"); ok && v.Ctx.fieldOfValue(args[0]) == seenT && v.Ctx.Parent != nil && v.Ctx.Parent.Parent == nil {
 			// markSeen(name,false) called directly by the reader
-			if kf.removeFn != nil && v.Ctx.inChain(kf.removeFn) {
+			if kf.inRemoval(v.Ctx) {
 				continue
 			}
 			clear = clear.or(v.Cond)
